@@ -60,7 +60,7 @@ def _split_top(tokens: List[str]) -> List[List[str]]:
 
 
 class Schema:
-    def __init__(self, m: Module):
+    def __init__(self, m: Module, repo: Optional[Any] = None):
         self.module = m
         self.tables: Dict[str, Table] = {}
         self.inserts: List[Insert] = []
@@ -68,10 +68,23 @@ class Schema:
         self.others: List[Tuple[int, str]] = []
         self.unique_indexes: List[Tuple[str, List[str], int]] = []
         self.unparsed: List[Tuple[int, str]] = []
+        self.text_of: Dict[int, str] = {}       # id(call node) -> statement text (a literal, or a name that folds to a string constant)
         for n in ast.walk(m.tree):
             if isinstance(n, ast.Call) and isinstance(n.func, ast.Attribute) and n.func.attr in ("sql", "execute", "executemany", "executescript") \
-                    and n.args and isinstance(n.args[0], ast.Constant) and isinstance(n.args[0].value, str):
-                self._stmt(n.args[0].value, n)
+                    and n.args:
+                text = None
+                if isinstance(n.args[0], ast.Constant) and isinstance(n.args[0].value, str):
+                    text = n.args[0].value
+                elif repo is not None and isinstance(n.args[0], (ast.Name, ast.Attribute)):
+                    try:
+                        v = repo.fold(n.args[0], m, None, {})
+                    except Exception:
+                        v = None
+                    if isinstance(v, str):
+                        text = v
+                if text is not None:
+                    self.text_of[id(n)] = text
+                    self._stmt(text, n)
 
     def _stmt(self, text: str, node: ast.Call) -> None:
         toks = _tokens(text)
